@@ -2072,6 +2072,9 @@ func TestVerifReplay(t *testing.T) {
 	gen = func(abc []string, cur []string, n int) { if len(cur) > 0 { cases = append(cases, append([]string{}, cur...)) }; if n == 0 { return }; for _, c := range abc { gen(abc, append(cur, c), n-1) } }
 	gen([]string{"a", "A", "b", "f", "(", ")", "+", ",", "'a'", "NOT", "1"}, nil, @L1@)
 	bad, accepted := 0, 0
+	// one calculator that sees every expression in turn: what it reports must not depend on what it parsed before
+	shared := calculator.NewExpressionCalculator()
+	shared.SetAutoVariables(false)
 	for _, toks := range cases {
 		expr := strings.Join(toks, " ")
 		c := calculator.NewExpressionCalculator()
@@ -2091,6 +2094,13 @@ func TestVerifReplay(t *testing.T) {
 		fresh := variables.NewVariableCollection()
 		c2.CreateVariables(fresh)
 		for _, v := range fresh.GetAll() { got = append(got, v.Name()) }
+		if shared.SetExpression(expr) == nil {
+			again := variables.NewVariableCollection()
+			shared.CreateVariables(again)
+			var got2 []string
+			for _, v := range again.GetAll() { got2 = append(got2, v.Name()) }
+			if strings.Join(got2, ",") != strings.Join(got, ",") { t.Errorf("%q: a reused calculator reports %v, a fresh one %v", expr, got2, got); bad++ }
+		} else { t.Errorf("%q: accepted by a fresh calculator, rejected by a reused one", expr); bad++ }
 		var wantFold []string
 		for _, w := range want { dup := false; for _, s := range wantFold { if strings.EqualFold(s, w) { dup = true } }; if !dup { wantFold = append(wantFold, w) } }
 		if len(got) != len(wantFold) { t.Errorf("%q: variables created %v, identifiers in variable position %v", expr, got, want); bad++ } else {
